@@ -2,7 +2,7 @@
 # harvest.sh <ID>: copy an agent's deliverables out of its scratch worktree and remove the worktree
 id=$1
 src=/tmp/mut/$id/_deliver
-dst=/verif/seeded_staging/$id
+dst=/verif/seeded_staging/$id${2:+.$2}
 if [ -d "$src" ]; then mkdir -p $dst && cp -r $src/* $dst/; fi
 git -C /repo worktree remove --force /tmp/mut/$id 2>/dev/null
 rm -rf /tmp/mut/$id
